@@ -290,6 +290,57 @@ def run(R, tier):
                 R.violation({'clause': 'differs-under-options', 'graded': True, 'null_generator': 0 in sig, 'registered': True},
                             {'signature': sig, 'options': 'graded=True', 'function': label, 'grades': [list(g_) for g_ in gsel]},
                             f'graded mode: the function {label} registered with symbolic=True, called with symbolic operands of grades {gsel} in Algebra(signature={sig}): {bad_}')
+    # ---- options x (lists of elements with equally many coefficients on different blades; inverses of non-simple bivectors in 4-D) ----
+    def wrap_(f):
+        def g(*a_): return f(*a_)
+        g.__name__ = f.__name__
+        return g
+    for it in range(3 if tier == 'quick' else 30):
+        sig3 = [rng.choice((1, -1)) for _ in range(3)]
+        base = algs.make_impl({'sig': sig3})
+        mkv = lambda A_, ks_, vs_: A_.multivector(keys=tuple(ks_), values=list(vs_))
+        vk, bk = list(base.indices_for_grades[(1,)]), list(base.indices_for_grades[(2,)])
+        elems = [(vk, [float(rng.randint(1, 5)) for _ in vk]), (vk, [float(rng.randint(-5, -1)) for _ in vk]), (bk, [float(rng.randint(1, 5)) for _ in bk])]
+        rot = ([0] + bk, [float(rng.randint(1, 4)) for _ in range(4)])
+        for oname, opts in (('wrapper', {'wrapper': wrap_}), ('graded', {'graded': True}), ('wrapper+graded', {'wrapper': wrap_, 'graded': True}), ('cse=False+wrapper', {'wrapper': wrap_, 'cse': False})):
+            A_ = algs.make_impl({'sig': sig3, **({'graded': True} if opts.get('graded') else {})}, **{k_: v_ for k_, v_ in opts.items() if k_ != 'graded'})
+            for sym_, f_ in (('>>', lambda r_, l_: r_ >> l_), ('*', lambda r_, l_: r_ * l_), ('+', lambda r_, l_: [r_ + e_ for e_ in l_] if False else r_ * l_)):
+                R.count('options-list-operand'); R.case(('opt-list', tuple(sig3), oname, sym_, it), True)
+                try:
+                    got_ = f_(mkv(A_, *rot), [mkv(A_, *e_) for e_ in elems])
+                    want_ = [f_(mkv(base, *rot), mkv(base, *e_)) for e_ in elems]
+                    cm = lambda m_: {int(k_): float(v_) for k_, v_ in zip(m_.keys(), m_.values()) if v_ != 0}
+                    ok_ = len(got_) == len(want_) and all(cm(g_) == cm(w_) for g_, w_ in zip(got_, want_))
+                    shown_ = [cm(g_) for g_ in got_], [cm(w_) for w_ in want_]
+                except Exception as e:  # noqa
+                    ok_, shown_ = False, (f'{type(e).__name__}: {e}'[:100], None)
+                if not ok_:
+                    R.violation({'clause': 'differs-under-options', 'graded': bool(opts.get('graded')), 'null_generator': False, 'list_operand': True},
+                                {'signature': sig3, 'options': oname, 'op': sym_, 'elements': elems, 'rotor': rot},
+                                f'R {sym_} [two vectors, a bivector] with {oname} in Algebra(signature={sig3}) gives {shown_[0]}, default options give {shown_[1]} '
+                                f'(R = {dict(zip(*rot))})')
+    for it in range(1 if tier == 'quick' else 10):
+        sig4 = [rng.choice((1, -1)) for _ in range(4)]
+        a_, b_ = float(rng.randint(1, 3)), float(rng.randint(2, 5))
+        outs_ = {}
+        for graded in (False, True):
+            A_ = algs.make_impl({'sig': sig4, 'graded': graded})
+            bk = list(A_.indices_for_grades[(2,)])
+            B_ = A_.multivector(keys=tuple(bk), values=[a_ if k_ == 3 else (b_ if k_ == 12 else 0.0) for k_ in bk])       # a e12 + b e34: not a blade
+            v_ = A_.multivector(keys=tuple(A_.indices_for_grades[(1,)]), values=[1.0, 2.0, 3.0, 4.0])
+            for label, call in (('B.inv()', lambda: B_.inv()), ('v / B', lambda: v_ / B_), ('B * B.inv()', lambda: B_ * B_.inv())):
+                try:
+                    r_ = call()
+                    outs_[graded, label] = {int(k_): round(float(x_), 9) for k_, x_ in zip(r_.keys(), r_.values()) if abs(x_) > 1e-12}
+                except Exception as e:  # noqa
+                    outs_[graded, label] = f'{type(e).__name__}'
+        for label in ('B.inv()', 'v / B', 'B * B.inv()'):
+            R.count('options-nonsimple-inverse'); R.case(('opt-inv', tuple(sig4), label, it), True)
+            if outs_[True, label] != outs_[False, label]:
+                R.violation({'clause': 'differs-under-options', 'graded': True, 'null_generator': False, 'inverse': True},
+                            {'signature': sig4, 'options': 'graded=True', 'op': label, 'B': [a_, b_]},
+                            f'{label} for the non-simple bivector B = {a_} e12 + {b_} e34 (stored as a whole grade) in Algebra(signature={sig4}): graded mode gives {outs_[True, label]}, '
+                            f'default mode {outs_[False, label]}')
     # ---- graded mode against Model/Graded.v (completion of grades), evaluated in Coq ----
     pool = algs.AlgPool()
     cases = []
